@@ -78,7 +78,30 @@ func RunConc(w *tr.Writer, st *ConcStats, tid int, r *rand.Rand, withMissing boo
 	for i := range seeds {
 		seeds[i] = r.Int63()
 	}
-	other := util.NewMemoryNodeDB()
+	// every node present before the goroutines start: a change set read later holds the nodes created since the
+	// collector started; together with this base it must describe one complete trie
+	base := map[string][]byte{}
+	_ = db.Iterate(context.Background(), func(ctx context.Context, key util.Key, node util.Node) error {
+		base[string(key)] = node.Encode()
+		return nil
+	})
+	// snapshot judges a change set (new nodes by key) read by GetChanges / written by SaveChanges as an atomic
+	// observation: the trie it describes must be complete, hold no node outside it, and its content is returned
+	// for the linearizability search like the result of an iteration
+	snapshot := func(ret map[string]any, root []byte, snap map[string][]byte) {
+		used := map[string]bool{}
+		get := func(k []byte) []byte {
+			if b, ok := snap[string(k)]; ok {
+				used[string(k)] = true
+				return b
+			}
+			return base[string(k)]
+		}
+		wr := bridge.WalkMPT(root, get, -1)
+		ret["snap"] = true
+		ret["snapok"] = wr.Missing == 0 && wr.KeysOK && len(used) == len(snap)
+		ret["items"] = ItemsJSON(wr.Term.Items())
+	}
 	var wg sync.WaitGroup
 	var panics int64
 	for g := 0; g < ng; g++ {
@@ -106,7 +129,7 @@ func RunConc(w *tr.Writer, st *ConcStats, tid int, r *rand.Rand, withMissing boo
 				}
 				call := map[string]any{"tid": tid, "op": "call", "g": g, "f": op, "p": bridge.Chars([]byte(p)), "v": v}
 				rec(call)
-				ret := map[string]any{"tid": tid, "op": "ret", "g": g, "f": op, "val": "", "items": []any{}}
+				ret := map[string]any{"tid": tid, "op": "ret", "g": g, "f": op, "val": "", "items": []any{}, "snap": false, "snapok": true}
 				res := Guard(func() string {
 					switch op {
 					case "ins":
@@ -130,12 +153,52 @@ func RunConc(w *tr.Writer, st *ConcStats, tid int, r *rand.Rand, withMissing boo
 						ret["items"] = ItemsJSON(items)
 						return ResClass(err)
 					case "changes":
-						_, _, _, _ = t.GetChanges()
+						root, changes, _, _ := t.GetChanges()
 						_ = t.GetChangeCount()
+						if rr.Intn(2) == 0 {
+							time.Sleep(time.Duration(rr.Intn(80)) * time.Microsecond)
+						}
+						snap := map[string][]byte{}
+						for _, c := range changes {
+							snap[string(c.New.GetHashBytes())] = c.New.Encode()
+						}
+						snapshot(ret, root, snap)
 						return "ok"
 					default:
-						if err := t.SaveChanges(context.Background(), other, false); err != nil {
+						fresh := util.NewMemoryNodeDB()
+						if err := t.SaveChanges(context.Background(), fresh, false); err != nil {
 							return "err"
+						}
+						// the saved change set names no root: it is the one saved node no other saved node refers to
+						snap := map[string][]byte{}
+						refd := map[string]bool{}
+						_ = fresh.Iterate(context.Background(), func(ctx context.Context, key util.Key, node util.Node) error {
+							enc := node.Encode()
+							snap[string(key)] = enc
+							if n, err := bridge.ParseMPTNode(enc); err == nil {
+								if n.Child != nil {
+									refd[string(n.Child)] = true
+								}
+								for _, k := range n.Kids {
+									if k != nil {
+										refd[string(k)] = true
+									}
+								}
+							}
+							return nil
+						})
+						var roots [][]byte
+						for k := range snap {
+							if !refd[k] {
+								roots = append(roots, []byte(k))
+							}
+						}
+						switch len(roots) {
+						case 0: // nothing saved (no change yet, or the trie became empty): not judged as a snapshot
+						case 1:
+							snapshot(ret, roots[0], snap)
+						default:
+							ret["snap"], ret["snapok"] = true, false
 						}
 						return "ok"
 					}
